@@ -409,6 +409,19 @@ pub struct History {
 /// Run one chain for `ndraws` draws with the given settings. Never panics: panics of the code under
 /// test are caught and reported in `end`.
 pub fn run_chain<S: Settings>(settings: &S, dens: LogDensity, rng_seed: u64, init: &[f64], ndraws: usize, keep: Keep) -> History {
+    run_chain_with(settings, dens, rng_seed, init, ndraws, keep, |_| {})
+}
+
+/// Like `run_chain`, calling `after_draw(&chain)` after `set_position` and after every successful draw.
+pub fn run_chain_with<S: Settings, F: FnMut(&S::Chain<CpuMath<LogDensity>>)>(
+    settings: &S,
+    dens: LogDensity,
+    rng_seed: u64,
+    init: &[f64],
+    ndraws: usize,
+    keep: Keep,
+    mut after_draw: F,
+) -> History {
     let log = dens.log.clone();
     let mut h = History {
         draws: vec![],
@@ -453,6 +466,9 @@ pub fn run_chain<S: Settings>(settings: &S, dens: LogDensity, rng_seed: u64, ini
         h.init_recs = std::mem::take(&mut l.evals);
     }
     if h.end == RunEnd::Done {
+        after_draw(&chain);
+    }
+    if h.end == RunEnd::Done {
         for t in 0..ndraws {
             let from = log.lock().unwrap().count;
             let r = crate::engine::catch(|| chain.expanded_draw());
@@ -483,6 +499,7 @@ pub fn run_chain<S: Settings>(settings: &S, dens: LogDensity, rng_seed: u64, ini
                         eval_range: (from, to),
                         evals: recs,
                     });
+                    after_draw(&chain);
                 }
                 Ok(Err(e)) => {
                     h.end = RunEnd::Draw(t, format!("{e:#}"), false);
@@ -502,4 +519,20 @@ pub fn run_chain<S: Settings>(settings: &S, dens: LogDensity, rng_seed: u64, ini
 pub fn run_spec(spec: &ChainSpec, dens: LogDensity, init: &[f64], ndraws: usize, keep: Keep) -> History {
     let any = spec.build();
     crate::with_settings!(any, s => run_chain(&s, dens, spec.seed, init, ndraws, keep))
+}
+
+pub use nuts_rs::verif::ScheduleProbe;
+
+/// Run a chain of one of the four Euclidean-adapted presets and record the schedule probe after
+/// `set_position` (index 0) and after every draw (index t + 1).
+pub fn run_spec_probed(spec: &ChainSpec, dens: LogDensity, init: &[f64], ndraws: usize, keep: Keep) -> Option<(History, Vec<ScheduleProbe>)> {
+    let mut probes = vec![];
+    let h = match spec.build() {
+        AnySettings::DiagNuts(s) => run_chain_with(&s, dens, spec.seed, init, ndraws, keep, |c| probes.push(c.verif_strategy().verif_probe())),
+        AnySettings::LowRankNuts(s) => run_chain_with(&s, dens, spec.seed, init, ndraws, keep, |c| probes.push(c.verif_strategy().verif_probe())),
+        AnySettings::DiagMclmc(s) => run_chain_with(&s, dens, spec.seed, init, ndraws, keep, |c| probes.push(c.verif_strategy().verif_probe())),
+        AnySettings::LowRankMclmc(s) => run_chain_with(&s, dens, spec.seed, init, ndraws, keep, |c| probes.push(c.verif_strategy().verif_probe())),
+        _ => return None,
+    };
+    Some((h, probes))
 }
